@@ -205,8 +205,33 @@ func (a *array) rtype() reflect.Type  { return a.t.Type }
 
 // malloc is standard Go allocation of a block of memory - the plus side is that Go manages the memory
 func malloc(t Dtype, length int) []byte {
+	if hasPointers(t.Type) {
+		// elements that hold pointers (strings, unsafe.Pointer, ...) have to live in memory that is allocated as such:
+		// the garbage collector does not look into a []byte, so it would free what the elements point to
+		return storage.AsByteSlice(reflect.MakeSlice(reflect.SliceOf(t.Type), length, length).Interface())
+	}
 	size := int(calcMemSize(t, length))
 	return make([]byte, size)
+}
+
+// hasPointers reports whether values of type t contain pointers the garbage collector has to follow.
+func hasPointers(t reflect.Type) bool {
+	switch t.Kind() {
+	case reflect.Bool, reflect.Int, reflect.Int8, reflect.Int16, reflect.Int32, reflect.Int64,
+		reflect.Uint, reflect.Uint8, reflect.Uint16, reflect.Uint32, reflect.Uint64, reflect.Uintptr,
+		reflect.Float32, reflect.Float64, reflect.Complex64, reflect.Complex128:
+		return false
+	case reflect.Array:
+		return hasPointers(t.Elem())
+	case reflect.Struct:
+		for i := 0; i < t.NumField(); i++ {
+			if hasPointers(t.Field(i).Type) {
+				return true
+			}
+		}
+		return false
+	}
+	return true
 }
 
 // calcMemSize calulates the memory size of an array (given its size)
